@@ -193,3 +193,45 @@ func VHConcatCloneGrow() {
 		vCover("grow into spare capacity")
 	}
 }
+
+// VHFillLarge: Fill and Repeat "for every length": lengths around powers of two and around
+// block sizes of a few thousand elements, for element types whose size is and is not a
+// power of two. One path per (type, length); the value is symbolic.
+type c12rec struct{ a, b, c int64 }
+
+func c12fillCheck[E comparable](n int, v E) {
+	s := make([]E, n+1) // one element of slack that Fill must not touch
+	var zero E
+	Fill(s[:n], v)
+	for i := 0; i < n; i++ {
+		vAssert(s[i] == v, "Fill (large): every element equals the value")
+	}
+	vAssert(s[n] == zero, "Fill (large): nothing beyond len is written")
+	r := Repeat(v, n)
+	vAssert(len(r) == n, "Repeat (large): length is count")
+	for i := range r {
+		vAssert(r[i] == v, "Repeat (large): every element equals the value")
+	}
+}
+
+func VHFillLarge() {
+	lens := []int{0, 1, 2, 3, 5, 8, 9, 16, 17, 31, 33, 100, 170, 171, 255, 256, 257, 341, 342, 511, 513,
+		1023, 1025, 1364, 1365, 1366, 2047, 2048, 2049}
+	if vParam("HUGE") == 1 {
+		lens = append(lens, 2731, 3413, 3414, 3415, 4095, 4096, 4097, 5461, 6000)
+	}
+	n := lens[vChoose("len", len(lens))]
+	switch vChoose("type", 4) {
+	case 0:
+		c12fillCheck(n, vInt("v"))
+	case 1:
+		c12fillCheck(n, [3]byte{vUint8("v"), vUint8("v"), vUint8("v")})
+	case 2:
+		c12fillCheck(n, c12rec{vInt64("v"), vInt64("v"), vInt64("v")})
+	case 3:
+		c12fillCheck(n, [5]uint16{vUint16("v"), vUint16("v"), vUint16("v"), vUint16("v"), vUint16("v")})
+	}
+	if n >= 2049 {
+		vCover("fill large: > 2048 elements")
+	}
+}
